@@ -87,6 +87,9 @@ pub fn rule_pool(lang: LangId) -> Vec<RuleTxt> {
             // matcher gives to the slots of ?b that the pattern does not mention)
             r("let-abstract", "(p ?a ?b)", "(let $z (p (v $z) ?b) ?a)"),
             r("lam-wrap", "(w ?a)", "(w (p (lam $z ?a) c0))"),
+            // an e-node (p L M) over a fully symmetric 6-slot class L and an asymmetric class M over the same slots matches this
+            // left side in 720 ways (one per arrangement of L's arguments relative to M's)
+            r("g6-p-drop", "(p (g6 $a $b $c $d $e $f) ?x)", "(w ?x)"),
             r("bb-same", "(bb $x ?a $x ?a)", "(lam $x ?a)"),
         ],
         LangId::Lambda => vec![
